@@ -306,6 +306,10 @@ struct TraceRunner {
   TStats st;
   bool verbose = false;
   LD Lbox[3], diag, mag;
+  LD kappa_max = 0;
+  /// optical depth error from walls/positions that are only known to round-off
+  /// (inexact geometry only): opacity * 64 eps * (box diagonal + |anchor|) per crossing of the box
+  LD geom_tau(int handovers) const { return G.exact ? 0.L : kappa_max * 64 * (LD)DBL_EPSILON * mag * (1 + handovers); }
   TraceRunner(Result &r, const TraceCfg &c, const std::vector< std::array< int, 3 > > &lays)
       : R(r), cfg(c), G(GEOMS[c.g]), ref(GEOMS[c.g], c.N), run(GEOMS[c.g], c.N) {
     GridFn fn(G, c.N, c.field);
@@ -330,6 +334,13 @@ struct TraceRunner {
     }
     diag = sqrtl(s2);
     mag = diag + am;
+    for (int ix = 0; ix < c.N; ++ix)
+      for (int iy = 0; iy < c.N; ++iy)
+        for (int iz = 0; iz < c.N; ++iz) {
+          double dens, xH, xHe;
+          t_field(c.field, c.N, ix, iy, iz, dens, xH, xHe);
+          kappa_max = std::max(kappa_max, (LD)dens * ((LD)T_SIGH * xH + (LD)T_SIGHE * xHe));
+        }
   }
   ~TraceRunner() {
     for (auto &L : layouts)
@@ -427,7 +438,7 @@ struct TraceRunner {
         }
         if (ref_ok && oref.status == 1) {
           const LD wantleft = (LD)target - E.tau_total;
-          if (fabsl((LD)oref.tau_left - wantleft) > 1e-12L * (LD)target * (1 + oref.handovers))
+          if (fabsl((LD)oref.tau_left - wantleft) > 1e-12L * (LD)target * (1 + oref.handovers) + geom_tau(oref.handovers))
             vref("remaining-tau", fmt("remaining depth %.17g, exact %.17Lg", oref.tau_left, wantleft));
         }
       }
@@ -468,7 +479,7 @@ struct TraceRunner {
           for (int k = 0; k < 3 && ok; ++k)
             if (pdist(k, (LD)o.end[k], (LD)oref.end[k]) > 1e-12L * mag * (1 + oref.handovers))
               vio(o.status == 0 ? "absorption-position" : "exit-position", fmt("axis %d: %.17g vs single block %.17g", k, o.end[k], oref.end[k]));
-          if (ok && o.status == 1 && std::fabs(o.tau_left - oref.tau_left) > 1e-12 * target * (1 + oref.handovers))
+          if (ok && o.status == 1 && std::fabs(o.tau_left - oref.tau_left) > 1e-12 * target * (1 + oref.handovers) + 2 * (double)geom_tau(oref.handovers))
             vio("remaining-tau", fmt("%.17g vs single block %.17g", o.tau_left, oref.tau_left));
           // per cell estimators over the union of touched cells
           for (int pass = 0; pass < 2 && ok; ++pass) {
@@ -528,7 +539,7 @@ static void run_tracing(Result &R, const Args &A) {
     add(2, 4, {0, 1, 2});
   }
   TStats total;
-  bool cut = false;
+  bool cut = false, cut_viol = false;
   size_t done_cfg = 0;
   uint64_t nlayout_runs = 0;
   for (size_t ic = 0; ic < cfgs.size() && !cut; ++ic) {
@@ -544,10 +555,12 @@ static void run_tracing(Result &R, const Args &A) {
         for (int hy = 0; hy < nh; ++hy) {
           if (cut)
             continue;
-          if (R.out_of_time() || R.violation_count > 20000) {
+          if (R.violation_count > 20000)
+            cut = cut_viol = true;
+          if (R.out_of_time())
             cut = true;
+          if (cut)
             continue;
-          }
           for (int hz = 0; hz < nh; ++hz)
             for (int dx = -2; dx <= 2; ++dx)
               for (int dy = -2; dy <= 2; ++dy)
@@ -565,7 +578,9 @@ static void run_tracing(Result &R, const Args &A) {
     if (!cut)
       ++done_cfg;
   }
-  if (cut)
+  if (cut_viol)
+    R.cap(fmt("tracing stopped after more than 20000 violations: %zu of %zu configurations completed", done_cfg, cfgs.size()));
+  else if (cut)
     R.hit_deadline(fmt("tracing: %zu of %zu (geometry, grid, field, periodicity) configurations completed", done_cfg, cfgs.size()));
   R.evaluations += total.ev;
   R.nontrivial += total.nontrivial;
